@@ -114,14 +114,14 @@ def keyset_ob(prog, fkind, meth, update_full):
     return Ob(f"keyset/{fkind}/{meth}/full={int(update_full)}", run, "all product overrides return the same key set (consumed by GaussianMeasure(**dict))", anchor, group="keyset")
 
 
-def reduce_ob(prog, kind):
+def reduce_ob(prog, kind, single=False):
     owner, _ = prog.method({"cold": "GaussianMeasure", "warm": "GaussianMeasure", "pdf": "GaussianPDF", "diag": "GaussianDiagMeasure",
                              "diagpdf": "GaussianDiagPDF"}.get(kind, kind), "product")
     anchor = f"{prog.relpath(prog.cls(owner).mod)}::{owner}.product"
 
     def run():
         I = build.new_interp()
-        R, Dd, N = sym("R"), sym("D"), sym("N")
+        R, Dd, N = (D(1) if single else sym("R")), sym("D"), sym("N")
         if kind in ("cold", "warm", "pdf", "diag", "diagpdf"):
             o = make_measure(I, kind, R, Dd, "u")
         else:
@@ -130,6 +130,9 @@ def reduce_ob(prog, kind):
         ln_o = obj_ln(o, x)
         epoch = len(I.writes)
         res = I.call_method(o, "product", [])
+        if res is o:
+            raise Refuted("product() returns the operand object itself: a later in-place operation on the result (normalize, update, cache "
+                          "population) changes the operand - operands are not left unchanged", anchor)
         got = obj_ln(res, x)
         ref = nf.sum_axis(ln_o, 0, keepdims=True)
         d = nf.diff(got, ref, what="product()")
@@ -140,7 +143,7 @@ def reduce_ob(prog, kind):
         if inv:
             return d + [("invariant", inv)], dict(funcs=funcs_of(I), construct=anchor)
         return d, dict(funcs=funcs_of(I), construct=anchor)
-    return Ob(f"reduce/{kind}", run, "ln(product())(x) == sum_i ln u_i(x), single component, operand unchanged, caches of the result consistent", anchor, group="reduce")
+    return Ob(f"reduce/{kind}" + ("/R=1" if single else ""), run, "ln(product())(x) == sum_i ln u_i(x), single component, operand unchanged, caches of the result consistent", anchor, group="reduce")
 
 
 def obligations(tier):
@@ -171,10 +174,11 @@ def obligations(tier):
             obs.append(keyset_ob(prog, c, m, uf))
     for k in ("ConjugateFactor", "LowRankFactor", "cold", "warm", "pdf", "diag", "diagpdf"):
         obs.append(reduce_ob(prog, k))
+        obs.append(reduce_ob(prog, k, single=True))
     return obs
 
 
-FLOORS = {"group:product": 240, "group:evaluate": 18, "group:keyset": 16, "group:reduce": 7}
+FLOORS = {"group:product": 240, "group:evaluate": 18, "group:keyset": 16, "group:reduce": 14}
 LEVEL = "proof"
 EXPLANATION = ("All 8 product implementations (factor.py) reached through GaussianMeasure.__mul__/multiply/hadamard are interpreted "
                "abstractly for every factor kind x measure cache state x update_full x batch configuration; the natural parameters of "
